@@ -8,10 +8,10 @@ import (
 )
 
 type cgInfo struct {
-	callers    map[*ssa.Function]map[*ssa.Function]bool // callee -> set of static callers
+	callers     map[*ssa.Function]map[*ssa.Function]bool // callee -> set of static callers
 	usedAsValue map[*ssa.Function]bool                   // function value escapes (passed, stored, bound) other than as a direct callee
-	onceFns    map[*ssa.Function]bool                   // functions handed to (*sync.Once).Do
-	takers     map[*ssa.Function]map[*ssa.Function]bool // function -> functions in which it is turned into a value
+	onceFns     map[*ssa.Function]bool                   // functions handed to (*sync.Once).Do
+	takers      map[*ssa.Function]map[*ssa.Function]bool // function -> functions in which it is turned into a value
 }
 
 var cgCache = map[*World]*cgInfo{}
